@@ -1,7 +1,7 @@
 PROP = {
     "id": "C24",
     "theorem_modules": ["Verif.Properties.C24"],
-    "min_theorems": 9,
+    "min_theorems": 11,
     "required_theorems": [
         "Verif.Properties.C24.commitsites_ok",
         "Verif.Properties.C24.cfg_from_source",
@@ -9,6 +9,7 @@ PROP = {
         "Verif.Properties.C24.failed_no_write_partial",
         "Verif.Properties.C24.writes_after_run_partial",
         "Verif.Properties.C24.failed_write_witness",
+        "Verif.Properties.C24.exec_accepted",
     ],
     "gen": [["vtool", "gen-commitsites"]],
     "tool_files": ["tool_commitsites.go"],
